@@ -2,9 +2,9 @@ SPECIFICATION Spec
 CONSTANTS
   Calls = {1, 2, 3}
   Hashes <- ModelHashes
-  MaxLanes = 2
+  MaxLanes = 3
   Kinds = {"line", "mline", "pchan"}
-  LaneCounts = {2}
+  LaneCounts = {2, 3}
   QSizes = {0, 1}
   HashBits = 3
   Fails = {FALSE}
